@@ -43,6 +43,24 @@ func checkC08(c *Ctx) {
 		} else {
 			c.Undecided("anchor %s.Element.SetBytesCanonical not found", pk)
 		}
+		// the lenient SetBytes takes its fast path (the fixed-width decoder applied to the whole
+		// input) only for an input of exactly Bytes bytes: a longer one is a bigger integer, to be
+		// reduced, not a prefix to be decoded
+		if fn := p.Func(pk, "Element", "SetBytes"); fn != nil && len(fn.Blocks) > 0 {
+			var decs []ssa.Instruction
+			for _, b := range fn.Blocks {
+				for _, in := range b.Instrs {
+					if call, ok := in.(*ssa.Call); ok {
+						if cl := calleeOf(&call.Call); cl.Name == "Element" && (cl.Recv == "bigEndian" || cl.Recv == "littleEndian" || cl.Recv == "ByteOrder") {
+							decs = append(decs, in)
+						}
+					}
+				}
+			}
+			if len(decs) > 0 {
+				RequireFactsAtInstr(c, p, "C08.guard", fn, decs, "fast-path-decoder", []Req{{"LenEq(Bytes)", `^\d+ == len\(p0\)$|^len\(p0\) == \d+$`}})
+			}
+		}
 		if fn := p.Func(pk, "Vector", "ReadFrom"); fn != nil {
 			RequireFacts(c, p, "C08.guard", fn, AcceptNilErr, nil, []Req{
 				{"LengthPrefixRead", `^noerr io\.ReadFull\(p0,(.*\[:4\]|local:\[4\]byte)\)`},
